@@ -21,10 +21,17 @@ import (
 	"verif/engine/interp"
 )
 
-const (
-	verifRoot = "/verif"
-	repoRoot  = "/repo"
+var (
+	verifRoot = envOr("VERIF_ROOT", "/verif")
+	repoRoot  = envOr("VERIF_REPO", "/repo")
 )
+
+func envOr(k, d string) string {
+	if v := os.Getenv(k); v != "" {
+		return v
+	}
+	return d
+}
 
 type Group struct {
 	Import  string   `json:"import"`
@@ -184,8 +191,11 @@ func overlayFor(g Group, native bool, extra map[string][]byte) (map[string][]byt
 		}
 	}
 	ov[filepath.Join(repoRoot, g.Dir, "zz_verif_rt.go")] = rtFile(pkgName, native)
+	stubProblems = append(stubProblems, applyStubs(ov, filepath.Join(repoRoot, g.Dir))...)
 	return ov, pkgName
 }
+
+var stubProblems []string
 
 type harnessEvidence struct {
 	Name           string            `json:"name"`
@@ -279,7 +289,14 @@ func cmdCheck(args []string) int {
 				extra[filepath.Join(repoRoot, g.Dir, "zz_verif_gen_"+filepath.Base(f))] = b
 			}
 		}
+		stubProblems = nil
 		ov, pkgName := overlayFor(g, false, extra)
+		if len(stubProblems) > 0 {
+			for _, p := range stubProblems {
+				inconclusive = append(inconclusive, "stub: "+p)
+			}
+			continue
+		}
 		eng, err := interp.Load(interp.LoadConfig{Dir: filepath.Join(verifRoot, "ws"), Patterns: []string{g.Import}, Overlay: ov, BuildTags: g.Tags, Env: goEnv()})
 		if err != nil {
 			fmt.Printf("INCONCLUSIVE property=%s reason=load-failed %v\n", id, err)
@@ -550,7 +567,7 @@ func nativeReplay(workDir string, g Group, pkgName string, names []string, harne
 	ovb, _ := json.Marshal(map[string]interface{}{"Replace": repl})
 	ovPath := filepath.Join(rdir, "overlay.json")
 	os.WriteFile(ovPath, ovb, 0o644)
-	args := []string{"test", "-count=1", "-vet=off", "-overlay", ovPath, "-run", "^TestVerifReplay$", "-timeout", "120s"}
+	args := []string{"test", "-v", "-count=1", "-vet=off", "-overlay", ovPath, "-run", "^TestVerifReplay$", "-timeout", "120s"}
 	if len(g.Tags) > 0 {
 		args = append(args, "-tags="+strings.Join(g.Tags, ","))
 	}
